@@ -118,6 +118,7 @@ func checkC06(c c06Case, o *Obs) error {
 	// parse into per-query returned lists (+ distances when printed)
 	got := map[string][]string{}
 	gotDist := map[string][]string{}
+	gotSNPs := map[string]string{}
 	var rowOrder []string
 	switch {
 	case c.Mode == "plain":
@@ -132,6 +133,7 @@ func checkC06(c c06Case, o *Obs) error {
 			rowOrder = append(rowOrder, f[0])
 			got[f[0]] = []string{f[1]}
 			gotDist[f[0]] = []string{f[2]}
+			gotSNPs[f[0]] = f[3]
 		}
 	case c.Table:
 		if lines[0] != "query,target,distance" {
@@ -334,6 +336,16 @@ func checkC06(c c06Case, o *Obs) error {
 		if K > 0 && len(res) == K && len(resDefined) < len(res) && len(resDefined) < len(within) && c.Measure != "tn93" {
 			return fmt.Errorf("query %s: undefined-distance target displaced a defined one: returned %v, defined candidates %v", q.ID, res, ids(within))
 		}
+		// the listed SNPs are those of the returned pair (every column with disjoint base sets, as <pos><query><target>)
+		if c.Mode == "plain" && len(res) == 1 {
+			for _, t := range c.Targets {
+				if t.ID == res[0] {
+					if want := strings.Join(countPair(q.Seq, t.Seq).snpsList, ";"); gotSNPs[q.ID] != want {
+						return fmt.Errorf("query %s: SNP column for the returned target %s is %q; the pair's certainly-different columns are %q", q.ID, t.ID, gotSNPs[q.ID], want)
+					}
+				}
+			}
+		}
 		// printed distances are those of the returned pairs
 		if ds, ok := gotDist[q.ID]; ok {
 			for i, id := range res {
@@ -407,6 +419,10 @@ func genC06(t *rapid.T) c06Case {
 		}
 		if rapid.IntRange(0, 4).Draw(t, "qamb") == 0 {
 			q[rapid.IntRange(0, w-1).Draw(t, "qambPos")] = 'N'
+		}
+		if rapid.IntRange(0, 4).Draw(t, "qIupac") == 0 {
+			// an ambiguity code in the query (contains or excludes the base's position: both occur)
+			q[rapid.IntRange(0, w-1).Draw(t, "qIupacPos")] = iupac15[4+rapid.IntRange(0, 9).Draw(t, "qIupacSym")]
 		}
 		if wide && rapid.Bool().Draw(t, "qMasked") {
 			// long masked stretches (N, -, ?) anywhere but not necessarily at the end
